@@ -408,6 +408,11 @@ fn gen_exact_case(rng: &mut Rng) -> Case {
         ops.push(if k == 0 { PathOp::MoveTo(q) } else { PathOp::LineTo(q) });
     }
     if closed {
+        // the outline may come back to its start with a line of its own before it is closed (the closing edge
+        // then has no length; the subpath is closed all the same, with a join at the start)
+        if rng.chance(0.35) {
+            ops.push(PathOp::LineTo(Point::new(pts[0].0 as f32, pts[0].1 as f32)));
+        }
         ops.push(PathOp::Close);
     }
     // dash entries: lengths of the path's own segments, sums of the first few, halves, and anything
@@ -427,8 +432,32 @@ fn gen_exact_case(rng: &mut Rng) -> Case {
         };
         dash.push(v.max(1) as f32);
     }
+    // gaps of no length now and then (the dashes on either side of one abut; in an array of odd length the entry
+    // is a dash of no length the second time round - nothing to paint with butt caps)
+    let mut zero_gaps = false;
+    if dash.len() >= 2 && rng.chance(0.12) {
+        for k in (1..dash.len()).step_by(2) {
+            if rng.chance(0.7) {
+                dash[k] = 0.;
+                zero_gaps = true;
+            }
+        }
+    }
+    // entries whose sum is infinite in f32 (each of them is finite): with a positive offset the walk through the
+    // entries still has a definite answer
+    let huge = rng.chance(0.04);
+    if huge {
+        zero_gaps = false;
+        let n = rng.int(1, 3) as usize;
+        dash = (0..n).map(|_| *rng.pick(&[2e38f32, 1e38, 3e38, 2.5e38])).collect();
+        if dash.iter().sum::<f32>() * (if n % 2 == 1 { 2. } else { 1. }) != f32::INFINITY {
+            dash.push(3e38);
+            dash.push(3e38);
+        }
+    }
     let period: f32 = dash.iter().sum::<f32>() * if dash.len() % 2 == 1 { 2. } else { 1. };
     let offset = match rng.below(8) {
+        _ if huge => *rng.pick(&[0.0f32, 1e38, 2.5e38, 3e38, 3.3e38, 1.9e38, 2.1e38]),
         0 => 0.,
         1 => -0.0,
         2 => -period * rng.int(1, 3) as f32,
@@ -440,7 +469,7 @@ fn gen_exact_case(rng: &mut Rng) -> Case {
     };
     let style = StrokeStyle {
         width: rng.int(4, 10) as f32,
-        cap: *rng.pick(&[LineCap::Butt, LineCap::Butt, LineCap::Square, LineCap::Round]),
+        cap: if zero_gaps { LineCap::Butt } else { *rng.pick(&[LineCap::Butt, LineCap::Butt, LineCap::Square, LineCap::Round]) },
         join: *rng.pick(&[LineJoin::Miter, LineJoin::Round, LineJoin::Bevel]),
         miter_limit: 4.,
         dash_array: dash,
